@@ -2,6 +2,9 @@ package driver
 
 import (
 	"context"
+	"fmt"
+	"sync"
+	"testing/synctest"
 
 	"github.com/avos-io/goat"
 	"google.golang.org/grpc/stats"
@@ -32,5 +35,89 @@ func (rt *runtimeS) clientObservers(i int) []goat.DialOption {
 	return o
 }
 
-func (rt *runtimeS) setupTopo()             { panic("verif-harness: topology not implemented: " + rt.sc.Topo) }
+// setupTopo builds the shipped relay topologies around the same scripted endpoints:
+//
+//	proxy:  client i -- link Ai -- goat.Proxy -- link Bi -- Serve             (one server-side connection per client)
+//	pd:     client i -- link Ai -- goat.Proxy -- link B -- goat.Demux by source -- Serve per logical connection
+//
+// CW / CR are logged on the client's own link, SR / SW by a tap around the transport the Server is given,
+// so the Layer-P rules judge the end-to-end behaviour; only the proxy's routing fields differ in between.
+func (rt *runtimeS) setupTopo() {
+	sc := rt.sc
+	if sc.Topo != "proxy" && sc.Topo != "pd" {
+		panic("verif-harness: topology not implemented: " + sc.Topo)
+	}
+	px := goat.NewProxy(rt.root, "px", func(id string) (goat.RpcReadWriter, error) {
+		return nil, fmt.Errorf("verif: no such peer %s", id)
+	}, nil, nil)
+	go px.Serve()
+	if sc.Topo == "pd" {
+		b := newLink(0, true, sc.Ser, "", "", "", "")
+		px.AddClient(sc.Srv, b.cli) // the proxy talks to the server side through b
+		// the announcement callback does not name the key: serve each logical connection as it is announced,
+		// learning the client index from the first envelope it reads
+		dm2 := goat.NewDemux(rt.root, b.srv, func(r *goat.Rpc) string { return r.GetHeader().GetSource() },
+			func(rw goat.RpcReadWriter) { go rt.serveLogical(rw) })
+		go dm2.Run()
+		rt.extra = append(rt.extra, func() {
+			for _, p := range []*pipe{b.c2s, b.s2c} {
+				p.with(func() { p.rerr, p.werr = errInjected, errInjected })
+			}
+			dm2.Stop()
+		})
+	}
+	for i := 1; i <= sc.NCli; i++ {
+		a := newLink(i, !sc.Manual, sc.Ser, "CW", "", "", "CR")
+		rt.startClient(i, a, a.cli)
+		px.AddClient(fmt.Sprintf("cli%d", i), a.srv)
+		if sc.Topo == "proxy" {
+			panic("verif-harness: topology proxy needs one server name per client; use pd")
+		}
+	}
+	synctest.Wait()
+}
+
+// serveLogical serves one logical connection of the demultiplexer; the tap learns which client it
+// belongs to from the source of the first envelope.
+func (rt *runtimeS) serveLogical(rw goat.RpcReadWriter) {
+	t := &lazyTap{inner: rw}
+	ctx := context.WithValue(rt.root, connKey{}, 0)
+	_ = rt.srv.Serve(context.WithValue(ctx, lazyKey{}, t), t)
+}
+
+type lazyKey struct{}
+
+// lazyTap is a tap whose connection index is fixed by the first envelope read ("cli<i>").
+type lazyTap struct {
+	inner  goat.RpcReadWriter
+	mu     sync.Mutex
+	conn   int
+	nW, nR int
+}
+
+func (t *lazyTap) Read(ctx context.Context) (*goat.Rpc, error) {
+	r, err := t.inner.Read(ctx)
+	if err == nil {
+		t.mu.Lock()
+		if t.conn == 0 {
+			fmt.Sscanf(r.GetHeader().GetSource(), "cli%d", &t.conn)
+		}
+		t.nR++
+		e := envEv("SR", t.conn, r)
+		e.N = t.nR
+		tr.emit(e)
+		t.mu.Unlock()
+	}
+	return r, err
+}
+
+func (t *lazyTap) Write(ctx context.Context, r *goat.Rpc) error {
+	t.mu.Lock()
+	t.nW++
+	e := envEv("SW", t.conn, r)
+	e.N = t.nW
+	tr.emit(e)
+	t.mu.Unlock()
+	return t.inner.Write(ctx, r)
+}
 func (rt *runtimeS) stepExtra(st Step) bool { return false }
